@@ -671,8 +671,8 @@ func c04CheckWith(run *Run, c *c04Case, w *c04Worker) {
 
 func runC04(run *Run, replay string) Spec {
 	spec := Spec{
-		Level: "translation_validation",
-		Rule: "documents over the L1 supergraph schema, valid by construction, and the same with one of 29 rule-targeted mutations (unknown field / argument / directive / fragment / type, leaf and composite shape, repeated or misplaced directives, missing required arguments, duplicate arguments / variables / fragments, literals that do not coerce, null for non-null, undefined / unused / wrongly typed variables, fragment cycles, impossible spreads, conflicting response names, and three mutations that keep the document valid): accept(normalize; validate) = verdict of the Lean reference validator Gql.Valid on the document as written. non-trivial = mutated documents; distinct = distinct documents",
+		Level:       "translation_validation",
+		Rule:        "documents over the L1 supergraph schema, valid by construction, and the same with one of 29 rule-targeted mutations (unknown field / argument / directive / fragment / type, leaf and composite shape, repeated or misplaced directives, missing required arguments, duplicate arguments / variables / fragments, literals that do not coerce, null for non-null, undefined / unused / wrongly typed variables, fragment cycles, impossible spreads, conflicting response names, and three mutations that keep the document valid): accept(normalize; validate) = verdict of the Lean reference validator Gql.Valid on the document as written. non-trivial = mutated documents; distinct = distinct documents",
 		TrustedBase: []string{"the Lean reference validator GqlVerif.Gql.Valid as the independent implementation of the specification's rules (theorems in Props.C04)", "the repository's parser for the JSON encoding of documents and of the schema", "the harness' generator and textual mutators"},
 		Assumptions: []string{"single operation named Q per document; subscriptions, input objects, list arguments and custom scalars do not occur in the L1 schema", "definitions that normalization discards (unused fragments, other operations) are not judged"},
 	}
@@ -824,7 +824,7 @@ func c04StripSkipInclude(op string) string {
 	hdr, body := out[:i], out[i:]
 	// drop the definitions of variables nothing uses any more
 	for _, m := range c04DeclRe.FindAllStringSubmatch(hdr, -1) {
-		if regexp.MustCompile(`\$`+m[1]+`\b`).MatchString(body) {
+		if regexp.MustCompile(`\$` + m[1] + `\b`).MatchString(body) {
 			continue
 		}
 		re := regexp.MustCompile(`\$` + m[1] + `: \[?\w+\]?!?( = [^,)]*)?(, )?`)
